@@ -497,7 +497,9 @@ fn single_history(rng: &mut Rng, rep: &mut Report, case_no: u64, len: usize) {
                 (Want::Panic(PanicKind::BorrowConflict), Want::Panic(PanicKind::BorrowConflict)) => refused += 1,
                 _ => {}
             }
-            if got != want && failure.is_none() {
+            // the statement asks for *a* panic: which message it carries is not part of the property
+            let same = got == want || matches!((&got, &want), (Want::Panic(_), Want::Panic(_)));
+            if !same && failure.is_none() {
                 let kind = match (&got, &want) {
                     (Want::Guard, Want::Panic(PanicKind::BorrowConflict)) => "aliasing_guard_returned",
                     (Want::None, Want::Panic(PanicKind::BorrowConflict)) => "conflict_swallowed_into_none",
